@@ -186,7 +186,7 @@ def u2_names(sc):
     v = sc.get("variant", "distinct")
     if v == "pkgnamed":
         return {1: "declone" + s, 2: "decltwo" + s, "m1": "_moda", "m2": "modb"}
-    if v == "bareimport":
+    if v in ("bareimport", "privalias"):
         return {1: "declone" + s, 2: "decltwo" + s, "m1": "_moda", "m2": "_modb"}
     if v in ("samename", "samenameboth"):
         return {1: "samedecl" + s, 2: "samedecl" + s, "m1": "_moda", "m2": "_modb"}
@@ -230,6 +230,10 @@ def u2_files(sc, root: str) -> dict:
         files[f"{sid}/sub/deep/{nm['m1']}.py"] = (f"from typing import Generic, TypeVar\n\nT{s} = TypeVar(\"T{s}\")\n\n\n"
                                                   f"class {nm[1]}(Generic[T{s}]):\n    content: T{s}\n    plain: int = 1\n\n    def __init__(self, item: T{s}):\n        self.item: T{s} = item\n\n"
                                                   f"    def m_d1(self) -> int:\n        ...\n\n    def _helper{s}(self) -> int:\n        ...\n")
+    if sc.get("variant") == "conddecl":      # the declarations stand under a module-level if / in a module-level try
+        ind = lambda t: "".join("    " + ln + "\n" if ln.strip() else "\n" for ln in t.splitlines())  # noqa: E731
+        files[f"{sid}/sub/deep/{nm['m1']}.py"] = "import sys\n\nif sys.version_info >= (3, 8):\n" + ind(decl(1)) + "else:\n    pass\n"
+        files[f"{sid}/sub/{nm['m2']}.py"] = "try:\n" + ind(decl(2)) + "except ImportError:\n    pass\n"
     if sc.get("variant") == "redefclass":    # class 1 is defined twice; the definitions share attribute names
         files[f"{sid}/sub/deep/{nm['m1']}.py"] = (f"class {nm[1]}:\n    retries: int = 1\n\n    def __init__(self):\n        self.verbose: bool = False\n\n"
                                                   f"    def m_old{s}(self) -> int:\n        ...\n\n\n"
